@@ -17,6 +17,8 @@ package main
 import (
 	"fmt"
 	"image"
+	"os"
+	"path/filepath"
 	"strconv"
 	"strings"
 	"sync"
@@ -952,6 +954,27 @@ func runC11(c *Ctx) {
 			b[i] = v&(1<<uint(n-1-i)) != 0
 		}
 		return b
+	}
+	// corpus first: minimised past failures (corpus/C11/hld.txt next to the harness directory) + built-in copies
+	corpus := []string{"-", "0", "1", "00000000000011010", "000000000001110101011101110", "000000000001110110010001000", "0000000000111", "000000000010000100011", "1111111111", "11110111111111"}
+	if exe, err := os.Executable(); err == nil {
+		if data, err := os.ReadFile(filepath.Join(filepath.Dir(exe), "..", "corpus", "C11", "hld.txt")); err == nil {
+			for _, l := range strings.Split(string(data), "\n") {
+				l = strings.TrimSpace(l)
+				if l != "" && !strings.HasPrefix(l, "#") {
+					corpus = append(corpus, l)
+				}
+			}
+		}
+	}
+	for _, l := range corpus {
+		var b []bool
+		for _, ch := range l {
+			if ch == '0' || ch == '1' {
+				b = append(b, ch == '1')
+			}
+		}
+		hld(b, "corpus")
 	}
 	// every vector of length 0..12
 	for n := 0; n <= c.Pick(12, 16); n++ {
